@@ -392,6 +392,9 @@ func (vc *VC) typingFact(tm *Term) string {
 		}
 		return fmt.Sprintf("(and %s %s %s %s (>= (rid (s-ref %s)) 0))", vc.le(z, "(s-off "+tm.S+")", true), vc.le(z, "(s-len "+tm.S+")", true),
 			vc.le("(s-len "+tm.S+")", "(s-cap "+tm.S+")", true), ub, tm.S)
+	case *types.Interface:
+		// the nil interface has no payload: one representation of nil
+		return "(and (>= (i-tag " + tm.S + ") 0) (=> (= (i-tag " + tm.S + ") 0) (= (i-val " + tm.S + ") 0)))"
 	case *types.Pointer, *types.Map, *types.Chan:
 		// object ids are positive (negative: package variables); id 0 is nil only
 		return "(and (>= (rpath " + tm.S + ") 0) (or (not (= (rid " + tm.S + ") 0)) (= " + tm.S + " nil)))"
